@@ -521,3 +521,87 @@ def run_coro(prop, tier, seed, t0):
     return 1 if nviol else 0
 
 REGISTRY['C20'] = run_coro
+
+# ---------------------------------------------------------------- C09: parameter binding and capture
+
+_C09_FIELDS = ['plain_w', 'lr_w', 'addr_w', 'value_w', 'plain_s', 'lr_s', 'addr_s', 'stable_s', 'value_s', 'stable_r', 'retal', 'copies', 'wrote']
+
+def run_c09(prop, tier, seed, t0):
+    import subprocess
+    work = os.path.join(lib.BUILD, 'work-%s-%d' % (prop, os.getpid()))
+    shutil.rmtree(work, ignore_errors=True); os.makedirs(work)
+    rp = os.path.join(lib.BUILD, 'replay'); os.makedirs(rp, exist_ok=True)
+    nviol, out_lines = 0, []
+    try:
+        d = lib.build_c09(tier)
+    except lib.BuildError as e:
+        # every member of the family is a documented legal use of the public macros: not compiling IS the violation
+        path = os.path.join(rp, 'C09-compile.txt'); open(path, 'w').write(str(e))
+        print('VIOLATION property=C09 replay=%s' % path)
+        lib.write_evidence(prop, tier, seed, 'model_checking', dict(evaluations=1, distinct_nontrivial=2, rule='family failed to compile', samples=['compile']),
+                           time.time() - t0, 1, [])
+        return 1
+    raw = os.path.join(work, 'out.ndjson')
+    env = dict(os.environ); env.update(lib.SAN_ENV)
+    p = subprocess.run(['timeout', '300', os.path.join(d, 'drv_c09'), raw], env=env, stdout=subprocess.PIPE, stderr=subprocess.STDOUT, text=True)
+    cases = {c['id']: c for c in json.load(open(os.path.join(d, 'cases.json')))}
+    if p.returncode != 0:
+        path = os.path.join(rp, 'C09-crash.txt'); open(path, 'w').write('driver failed rc=%d\n%s\n' % (p.returncode, p.stdout[-4000:]))
+        out_lines.append('VIOLATION property=C09 replay=%s' % path); nviol += 1
+    obs = {cid: dict(vals={}, counts={}, reports=0) for cid in cases}
+    reports = 0
+    cur = None
+    for l in open(raw) if os.path.exists(raw) else []:
+        try:
+            x = json.loads(l)
+        except Exception:
+            continue
+        if x['id'] < 0:
+            if cur is not None:
+                obs[cur]['reports'] += 1
+            continue
+        cur = x['id']
+        f = _C09_FIELDS[x['f']]
+        obs[cur]['vals'][f] = x['v']
+        obs[cur]['counts'][f] = obs[cur]['counts'].get(f, 0) + 1
+    norm = os.path.join(work, 'norm.ndjson')
+    with open(norm, 'w') as g:
+        for cid, c in cases.items():
+            o = obs[cid]
+            once = 1 if all(o['counts'].get(f, 0) == 1 for f in ('plain_s', 'lr_s')) and all(o['counts'].get(f, 1) == 1 for f in ('addr_s', 'value_s', 'stable_s', 'stable_r')) else 0
+            g.write(json.dumps(dict(id=cid, n=c['n'], i=c['i'], mode=c['mode'], kind=c['kind'], reports=o['reports'], once=once,
+                                    obs={f: o['vals'].get(f, -1) for f in _C09_FIELDS})) + '\n')
+    r = lib.validate_generic('TraceBinding.tla', 'TraceBinding.cfg', norm, work, 'v')
+    if 'error' in r:
+        print('CHECK-ERROR property=C09 %s' % r['error'][:2000]); return 2
+    by_id = {}
+    for v in r['viol']:
+        by_id.setdefault(v['id'], []).append(v)
+    for cid, vs in list(by_id.items())[:10]:
+        path = os.path.join(rp, 'C09-case%d.txt' % cid)
+        open(path, 'w').write('case %s (see %s/c09_%d.cpp, function case_%d)\nmismatches against spec/Binding.tla Expect:\n%s\n' % (
+            json.dumps(cases[cid]), d, cid % 16, cid, '\n'.join(json.dumps(v) for v in vs)))
+        out_lines.append('VIOLATION property=C09 replay=%s' % path); nviol += 1
+    nviol += max(0, len(by_id) - 10)
+    mc = run_mc('MCBinding', tier, work)
+    if mc.get('error'):
+        print('CHECK-ERROR property=C09 model checking: %s' % mc['error'][:2000]); return 2
+    if mc.get('violated'):
+        path = os.path.join(rp, 'C09-model.txt'); open(path, 'w').write(mc['output'])
+        out_lines.append('VIOLATION property=C09 replay=%s' % path); nviol += 1
+    for l in out_lines:
+        print(l)
+    cov = dict(states=mc.get('distinct', 0), transitions=mc.get('generated', 0), traces_validated_against_impl=len(cases),
+               evaluations=len(cases), distinct_nontrivial=len({(c['n'], c['i'], c['mode'], c['kind']) for c in cases.values() if c['n'] > 0}),
+               rule='generated family: arity x position x passing mode (value, &, const&, &&, T*, move-only unique_ptr, copy-counting by value / const&) x kind of mock function '
+                    '(MAKE_MOCKn, MAKE_CONST_MOCKn, overloaded, IMPLEMENT_MOCKn); each case executed once, observations judged by Binding!Expect; non-trivial = case with at least one parameter',
+               samples=[cases[i] for i in list(cases)[:3]], model_checking=mc.get('summary', {}), exhaustive=(tier == 'thorough'),
+               arities=sorted({c['n'] for c in cases.values()}), tree=lib.tree_hash())
+    lib.write_evidence(prop, tier, seed, 'model_checking', cov, time.time() - t0, nviol,
+                       ['the family axis (arity, position, type) is generated C++; the TLA+ contributes the aliasing / capture semantics and the expected observation',
+                        '_j beyond the arity is checked as a compile error under C19', 'ASan+UBSan on'])
+    shutil.rmtree(work, ignore_errors=True)
+    log('C09 %s: %d cases, %d violations, mc=%s, %.0fs' % (tier, len(cases), nviol, mc.get('summary'), time.time() - t0))
+    return 1 if nviol else 0
+
+REGISTRY['C09'] = run_c09
